@@ -628,6 +628,13 @@ impl<const N: usize> Exec<N> {
             }
         }
         // 5. the alive set and the edges against the model
+        if obs.len != obs.keys.len() || obs.is_empty != obs.keys.is_empty() {
+            return fail(
+                "alive-set.len-disagrees-with-keys",
+                &["C01", "C02", "C06"],
+                format!("after {op:?}: len()={}, is_empty()={}, keys()={:?}", obs.len, obs.is_empty, obs.keys),
+            );
+        }
         let inst = self.view.insts[i].as_mut().unwrap();
         if inst.m.adoptive && !removed.is_empty() {
             // a slice's groups are left open by C13: C01's clauses have passed, the model adopts
